@@ -128,6 +128,35 @@ def canon(e):
     return ("rel", rels(e))
 
 
+def rule_resize_guard(ck, m, rid):
+    """The resize is skipped only when the frame held already has the target size: the test that guards it compares the size of the very image that
+    would be resized with the target (frames / pages of one file need not have the size of frame 0 that was recorded when the image was opened).
+    Shared by C01 (the render has the advertised dimensions), C02 and C03 (the pixels are those of the image at the render size)."""
+    from tiv.astutil import guards as _guards
+    grd = m.get(CM, "BaseImage._get_render_data")
+    fns = [grd] + [n for n in ast.walk(grd) if isinstance(n, ast.FunctionDef) and n is not grd]
+    n_ = 0
+    for fn in fns:
+        def owner(n):
+            while n is not None and not isinstance(n, (ast.FunctionDef, ast.AsyncFunctionDef, ast.Lambda)):
+                n = getattr(n, "_p", None)
+            return n
+        for c in [c for c in ast.walk(fn) if isinstance(c, ast.Call) and isinstance(c.func, ast.Attribute) and c.func.attr == "resize" and owner(c) is fn]:
+            n_ += 1
+            recv_ = norm(c.func.value)
+            ck.ob(rid, enclosing_stmt(c), True, "", stmt=f"pixel pipeline: guards of `{short(c, 40)}` examined")
+            for t_, _b in _guards(c):
+                for x_ in ast.walk(t_):
+                    if isinstance(x_, ast.Compare) and len(x_.ops) == 1 and isinstance(x_.ops[0], (ast.Eq, ast.NotEq)) and "size" in (norm(x_.left), norm(x_.comparators[0])):
+                        oth_ = x_.comparators[0] if norm(x_.left) == "size" else x_.left
+                        other_ = norm(oth_)
+                        same_ = other_ == recv_ + ".size" or norm(trace(fn, oth_, use=x_)) in (recv_ + ".size", norm(trace(fn, c.func.value, use=c)) + ".size")
+                        ck.ob(rid, enclosing_stmt(c), same_, f"whether `{short(c, 40)}` runs is decided by comparing the target size with `{other_}`, not with the size of the image about to be resized "
+                              f"(`{recv_}.size`): a frame whose own size differs (multi-page TIFF / ICO, a frame after a draft) is then passed on at the wrong size - the render no longer has the advertised dimensions",
+                              stmt="pixel pipeline: the resize is skipped only when the image held has the target size")
+    ck.expect(n_ >= 1, "_get_render_data: no resize step found")
+
+
 def rule_pixel_pipeline(ck, m, rid):
     """Order and conditions of the steps that produce the pixels (shared with C03): select the frame, convert to the target mode,
     then BOX-resize; resampling happens on pixels of the target mode only, and the frame is always selected for animated images."""
@@ -250,6 +279,7 @@ def rule_pixel_pipeline(ck, m, rid):
             ck.ob(rid, enclosing_stmt(c), len(c.args) >= 2 and norm(c.args[0]) == "size" and norm(c.args[1]).endswith("BOX") and not extra_kw,
                   f"the image must be resized to exactly `size` with BOX resampling of the whole image in one step (no box=, reducing_gap=: a two-step reduction is not the box average); found `{short(c, 70)}`", stmt="pixel pipeline: resize(size, BOX)")
     ck.expect(n_resize >= 1, "_get_render_data: no resize step found")
+    rule_resize_guard(ck, m, rid)
 
 
 def run(ck, m):
